@@ -79,7 +79,8 @@ class ProgGen:
     (`imports`: file -> [file]), `externs` (files), and a description of the declarations for statistics."""
 
     def __init__(self, rng: random.Random, stress: str = "mixed", multi_file: bool = False, with_extern: bool = False,
-                 max_decls: int = 6, allow_async: bool = True, allow_callbacks: bool = True, case_names: bool = False):
+                 max_decls: int = 6, allow_async: bool = True, allow_callbacks: bool = True, case_names: bool = False,
+                 fn_targets: bool = False):
         self.r = rng
         self.stress = stress          # mixed | same-name | conversion | base | anon | plain
         self.multi_file = multi_file
@@ -88,6 +89,10 @@ class ProgGen:
         self.allow_async = allow_async
         self.allow_callbacks = allow_callbacks
         self.case_names = case_names
+        # explicit target lists that leave several targets — on inline function types (`function +java +cpp (…)`: the list
+        # is written into the synthetic name of the type), records and interfaces; every list is recorded in `target_sites`
+        self.fn_targets = fn_targets
+        self.target_sites: list[dict] = []   # {"kind": "inline" | "record" | "interface", "q": qualified name | None, "flags": [...]}
         self.used: set[tuple] = set()      # (ns tuple, name)
         self.visible: list[dict] = []      # declared so far: {"q": qualified name, "kind": ...}
         self.features: set[str] = set()
@@ -157,7 +162,40 @@ class ProgGen:
             return self.prim()
         return self.ref_to(("record", "enum")) or self.prim()
 
+    def target_flags(self, pool=None, min_left: int = 2) -> list[str]:
+        """a target list as written, leaving at least `min_left` targets: `+a +b …` in an order of its own (not the
+        registry's), with a repeated flag, pure exclusions, `+any -x`, inclusions and exclusions mixed"""
+        r = self.r
+        pool = list(pool or TARGETS)
+        form = r.choice(["plus", "plus", "plus", "plus-repeat", "minus", "any-minus", "mixed"])
+        if form in ("plus", "plus-repeat") or len(pool) < 4:
+            ts = r.sample(pool, r.randrange(min_left, min(len(pool), 4) + 1))
+            flags = ["+" + t for t in ts]
+            if form == "plus-repeat":
+                flags.insert(r.randrange(1, len(flags) + 1), r.choice(flags))
+        elif form == "minus":
+            flags = ["-" + t for t in r.sample(pool, r.choice([1, 1, 2]))]
+        elif form == "any-minus":
+            flags = ["+any"] + ["-" + t for t in r.sample(pool, r.choice([1, 2]))]
+            if r.random() < 0.3:
+                flags.reverse()
+        else:
+            ts = r.sample(pool, min(len(pool), min_left + 1 + r.choice([0, 1])))
+            drop = r.choice(ts)
+            flags = ["+" + t for t in ts]
+            flags.insert(r.randrange(0, len(flags) + 1), "-" + drop)
+        self.features.add("targets:" + form)
+        return flags
+
     def callback(self):
+        if self.fn_targets and self.r.random() < 0.7:
+            flags = self.target_flags()
+            self.target_sites.append({"kind": "inline", "q": None, "flags": flags})
+            self.features.add("callback:explicit-targets")
+            return f"function {' '.join(flags)} {self._callback()}"
+        return self._callback()
+
+    def _callback(self):
         """an inline function type. Equal signatures (same parameter and return types) are meant to recur — in the same
         namespace and in sibling / enclosing namespaces — under *different* parameter names: the generated type has the
         same name, the rendered files differ."""
@@ -194,6 +232,10 @@ class ProgGen:
             text = f"{name} = flags {{ {items}{extra} }}"
         elif k == "record":
             tg = r.choice(["", "", "", " +cpp", " +java", " +objc", " +cppcli", " +cpp +java"])
+            if self.fn_targets and r.random() < 0.5:
+                flags = self.target_flags(pool=["cpp", "java", "objc", "cppcli"])
+                tg = " " + " ".join(flags)
+                self.target_sites.append({"kind": "record", "q": q, "flags": flags})
             if tg:
                 self.features.add("record:base" + tg.replace(" ", ""))
             nf = r.choice([0, 1, 2, 3])
@@ -206,13 +248,17 @@ class ProgGen:
             text = f"{name} = record{tg} {{ {fields} }}{der}"
         elif k == "interface":
             tg = r.choice([" +cpp", " +cpp", " +java", " +objc", " +cppcli", "", " +cpp +java"])
+            if self.fn_targets and r.random() < 0.4:
+                flags = self.target_flags(pool=["cpp", "java", "objc", "cppcli"])
+                tg = " " + " ".join(flags)
+                self.target_sites.append({"kind": "interface", "q": q, "flags": flags})
             self.features.add("interface:" + (tg.strip().replace(" ", "") or "all"))
             ms = []
             errs = [v for v in self.visible if v["kind"] == "error"]
             for i in range(r.choice([1, 2, 3])):
                 asy = self.allow_async and r.random() < 0.3
                 ps = [f"p{j}: {self.param_type()}" for j in range(r.choice([0, 1, 2]))]
-                if self.allow_callbacks and r.random() < (0.9 if self.stress == "anon" else 0.3):
+                if self.allow_callbacks and r.random() < (0.9 if self.stress == "anon" else 0.75 if self.fn_targets else 0.3):
                     ps.append(f"cb: {self.callback()}")
                 ret = r.choice(["", f" -> {self.prim()}", f" -> {self.param_type()}"])
                 if asy and not ret:
@@ -382,7 +428,8 @@ class ProgGen:
                 heads.append(f'@import "{self._spell(f, t)}"')
             files[f] = "\n".join(heads + [self.body(max(1, self.max_decls // (len(order) + 1)) if f != root else self.max_decls)])
             imports[f] = edges.get(f, [])
-        return {"files": files, "root": root, "imports": imports, "externs": externs, "features": sorted(self.features)}
+        return {"files": files, "root": root, "imports": imports, "externs": externs, "features": sorted(self.features),
+                "target_sites": list(self.target_sites)}
 
     def _spell(self, importer: str, target: str) -> str:
         if target.startswith("inc/"):
